@@ -20,13 +20,15 @@ func init() {
 			"(3) writer, CRL builder, OCSP, cert/<serial>, ACME and tidy address revocation records through the same prefix value (revokedPath) and the same serial normalisation; OCSP reports Revoked whenever a record is found and never answers from a failed lookup; " +
 			"(4) an existing record returns the stored revocation before any write; " +
 			"(5) tidy deletes a revoked/ entry only across {entry nil, empty value, unparseable certificate and tidy_invalid_certs, NotAfter+buffer passed and tidy_revoked_certs}, judged on the certificate stored under the same serial; " +
-			"(6) the CRL builder turns every listed revocation record into a CRL entry (or fails), hands all of them to buildCRL, numbers each CRL with the counter it increments on the same path, never resets a counter, writes the CRL before reporting success and persists the counters after the CRLs were built.",
+			"(6) the CRL builder turns every listed revocation record into a CRL entry (or fails), hands all of them to buildCRL, numbers each CRL with the counter it increments on the same path, never resets a counter, writes the CRL before reporting success and persists the counters after the CRLs were built.; " +
+			"(8) the CRL builder attributes a revocation record to an issuer by subject match plus signature verification only — no other test lets the loop pass over a candidate issuer — accepts a recorded issuer only if it is still an issuer, and places every parsed record on an issuer's list or on the unassigned list (the one reviewed skip: the record is one of the issuers' own certificates).",
 		NotDecided: "CRL/OCSP signature validity; multi-issuer interleavings and other schedules; restart after a prefix of the storage writes (crash points); that normalizeSerial/serialFromBigInt compute matching strings (value level); expiry arithmetic.",
 		Run:        runC16,
 	})
 }
 
 func runC16(c *eng.Ctx, thorough bool) {
+	c16Association(c)
 	V, ok := c.P.ConstValue("pki.revokedPath")
 	if !ok {
 		c.Unresolved("pki.revokedPath")
